@@ -753,6 +753,7 @@ def run_cases(run, stream, terms, metas, check_fn, prelude="", shard=300):
     if bad is None:
         run.proof_ok = False
         return
+    run.log("coq stream %s: %d cases, %d disagreements" % (stream, len(terms), len(bad)))
     for i in bad[:10]:
         run.corr_failures.append({"stream": stream, "case": metas[i], "impl": terms[i][-600:],
                                   "model": "disagrees (" + check_fn + " = false)"})
@@ -794,11 +795,13 @@ def main():
                                                   "first_splits": info["all_splits"][:6], "combo_seasons": info["combo_seasons"],
                                                   "combo_days": info["combo_days"]}})
         check_generated(run, info)
+        run.log("translator done, %d candidate splits" % len(info["all_splits"]))
         run.check_proofs("Properties/C13.v", ["Proofs/SplitsProofs.v"], generated=["Generated/SplitsGen.v"])
         run.cov["exhaustive"] = False     # the finite parts below are enumerated completely; fits / criteria tables / date sets are sampled
         run.cov["exhaustive_over"] = ["all %d regenerated candidate splits (exact cover: vm_compute theorem + Python oracle)" % len(info["all_splits"]),
                                  "all 16 allow-flag combinations on the main maps/date sets", "all 731 dates of 2023 and 2024"]
     ok_models = info is not None and run.ensure_models(["Model/SplitsRun.v", "Model/CasesLib.v"])
+    run.log("theorems re-checked: %s" % run.proof_ok)
     if info is not None:
         from opendsm.eemeter.models.daily.model import DailyModel
         from opendsm.eemeter import DailyReportingData
